@@ -780,8 +780,8 @@ pub(crate) fn parse_date(value: &str, locale: &Locale) -> Result<(i32, String), 
     let mut is_iso_date = false;
     let mut day_first = true;
     let (day_str, month_str, year_str) = if parts.len() == 3 {
-        if parts[0].len() == 4 {
-            // ISO date  yyyy-mm-dd
+        if parts[0].len() == 4 && parts[0].bytes().all(|b| b.is_ascii_digit()) {
+            // ISO date  yyyy-mm-dd (four digits: a four letter month name like "July" is not a year)
             if !parts[1].chars().all(char::is_numeric) {
                 return Err("Not a valid date".to_string());
             }
